@@ -15,7 +15,7 @@ pub struct Profile {
     pub own: Vec<&'static str>,
     /// op weights: send, send_bad, poll, flush, save, restart, purge, store, get_off, del_off, checkpoint,
     /// advance+maintain, update_expiry, update_max, create_parts, delete_parts, delete_group
-    pub w: [u32; 19],
+    pub w: [u32; 20],
     pub ops: (u64, u64),
     pub burst: (u64, u64),
     /// events of which at least one must occur for a history to be non-trivial
@@ -77,7 +77,7 @@ pub fn profile(check: &str) -> Profile {
     let default = Profile {
         owner: "C01",
         own: vec!["C01:"],
-        w: [30, 4, 10, 6, 4, 8, 2, 0, 0, 0, 2, 0, 0, 0, 0, 0, 0, 0, 0],
+        w: [30, 4, 10, 6, 4, 8, 2, 0, 0, 0, 2, 0, 0, 0, 0, 0, 0, 0, 0, 0],
         ops: (20, 90),
         burst: (1, 3),
         nontrivial_any: vec!["send_after_restart", "purge", "rejected_send"],
@@ -93,7 +93,7 @@ pub fn profile(check: &str) -> Profile {
         "C02" => Profile {
             owner: "C02",
             own: vec!["C02:"],
-            w: [26, 0, 14, 8, 5, 6, 1, 2, 0, 0, 2, 0, 0, 0, 0, 0, 0, 0, 0],
+            w: [26, 0, 14, 8, 5, 6, 1, 2, 0, 0, 2, 0, 0, 0, 0, 0, 0, 0, 0, 0],
             burst: (3, 6),
             nontrivial_any: vec!["poll_tier_disk+buffer", "poll_spanning_restart_point", "poll_after_reload"],
             required: vec!["poll_tier_disk+buffer", "poll_tier_disk", "poll_tier_buffer", "poll_after_reload", "poll_spanning_restart_point"],
@@ -103,7 +103,7 @@ pub fn profile(check: &str) -> Profile {
         "C03" => Profile {
             owner: "C03",
             own: vec!["C03:"],
-            w: [30, 0, 6, 5, 3, 16, 2, 2, 0, 0, 1, 0, 0, 0, 0, 0, 0, 0, 0],
+            w: [30, 0, 6, 5, 3, 16, 2, 2, 0, 0, 1, 0, 0, 0, 0, 0, 0, 0, 0, 0],
             burst: (0, 2),
             nontrivial_any: vec!["send_after_restart", "restart_with_index_rebuild", "restart_flush_all"],
             required: vec!["send_after_restart", "restart_shutdown", "restart_flush_all"],
@@ -112,7 +112,7 @@ pub fn profile(check: &str) -> Profile {
         "C07" => Profile {
             owner: "C07",
             own: vec!["C07:"],
-            w: [14, 0, 16, 2, 1, 5, 2, 22, 6, 8, 1, 0, 0, 0, 0, 0, 2, 0, 0],
+            w: [14, 0, 16, 2, 1, 5, 2, 22, 6, 8, 1, 0, 0, 0, 0, 0, 2, 0, 0, 0],
             burst: (0, 1),
             nontrivial_any: vec!["auto_commit", "store_beyond_refused", "purge"],
             required: vec!["auto_commit", "store_beyond_refused", "restart_shutdown"],
@@ -122,7 +122,7 @@ pub fn profile(check: &str) -> Profile {
         "C18" => Profile {
             owner: "C18",
             own: vec!["C18:"],
-            w: [34, 0, 8, 5, 3, 8, 0, 0, 0, 0, 3, 0, 0, 0, 0, 0, 0, 0, 0],
+            w: [34, 0, 8, 5, 3, 8, 0, 0, 0, 0, 3, 0, 0, 0, 0, 0, 0, 0, 0, 0],
             nontrivial_any: vec!["dedup_dropped"],
             required: vec!["dedup_dropped", "dup_within_batch", "dup_across_restart"],
             cfg: dedup_cfg,
@@ -132,7 +132,7 @@ pub fn profile(check: &str) -> Profile {
         "C17" => Profile {
             owner: "C17",
             own: vec!["C17:"],
-            w: [40, 8, 4, 2, 1, 3, 1, 0, 0, 0, 2, 0, 0, 0, 3, 3, 0, 0, 0],
+            w: [40, 8, 4, 2, 1, 3, 1, 0, 0, 0, 2, 0, 0, 0, 3, 3, 0, 0, 0, 0],
             burst: (0, 1),
             nontrivial_any: vec!["balanced_send", "key_repeat", "rejected_send"],
             required: vec!["balanced_send", "key_repeat", "rejected_send"],
@@ -143,7 +143,7 @@ pub fn profile(check: &str) -> Profile {
         "C16" => Profile {
             owner: "C16",
             own: vec!["C16:"],
-            w: [30, 2, 4, 5, 4, 8, 4, 0, 0, 0, 8, 0, 0, 0, 3, 3, 0, 0, 0],
+            w: [30, 2, 4, 5, 4, 8, 4, 0, 0, 0, 8, 0, 0, 0, 3, 3, 0, 0, 0, 3],
             burst: (0, 1),
             nontrivial_any: vec!["purge", "send_after_restart", "partitions_deleted"],
             required: vec!["purge", "restart_shutdown"],
@@ -152,7 +152,7 @@ pub fn profile(check: &str) -> Profile {
         "C14" => Profile {
             owner: "C14",
             own: vec!["C14:"],
-            w: [30, 0, 10, 3, 3, 6, 1, 4, 0, 0, 2, 22, 4, 0, 0, 0, 0, 0, 0],
+            w: [30, 0, 10, 3, 3, 6, 1, 4, 0, 0, 2, 22, 4, 0, 0, 0, 0, 0, 0, 0],
             burst: (1, 3),
             nontrivial_any: vec!["retention_deleted_messages"],
             required: vec!["retention_deleted_messages", "retention_deleted_everything", "poll_below_earliest", "send_after_retention", "restart_after_retention"],
@@ -163,7 +163,7 @@ pub fn profile(check: &str) -> Profile {
         "C15" => Profile {
             owner: "C15",
             own: vec!["C15:"],
-            w: [50, 0, 4, 3, 3, 5, 0, 0, 0, 0, 2, 12, 0, 6, 0, 0, 0, 0, 0],
+            w: [50, 0, 4, 3, 3, 5, 0, 0, 0, 0, 2, 12, 0, 6, 0, 0, 0, 0, 0, 3],
             burst: (0, 1),
             nontrivial_any: vec!["send_refused_topic_full", "size_cleanup_deleted", "too_small_limit_refused"],
             required: vec!["send_refused_topic_full", "size_cleanup_deleted", "too_small_limit_refused", "max_size_updated"],
@@ -173,7 +173,7 @@ pub fn profile(check: &str) -> Profile {
         "C19" => Profile {
             owner: "C19",
             own: vec!["C19:", "C02:fields", "C03:"],
-            w: [30, 0, 10, 5, 3, 6, 1, 0, 0, 0, 4, 0, 0, 0, 0, 0, 0, 4, 1],
+            w: [30, 0, 10, 5, 3, 6, 1, 0, 0, 0, 4, 0, 0, 0, 0, 0, 0, 4, 1, 0],
             burst: (1, 3),
             nontrivial_any: vec!["send_after_restart", "wrong_key_start_refused_other-key", "ciphertext_corrupted"],
             required: vec!["restart_shutdown", "wrong_key_start_refused_other-key", "ciphertext_corrupted", "cleartext_scan_files"],
@@ -353,7 +353,11 @@ pub fn gen_op(w: &World, rng: &mut Rng, prof: &Profile, seq: &mut u64) -> Op {
         15 => Op::DeletePartitions { n: rng.range(1, 3) as u32 },
         16 => Op::DeleteGroup { idx: rng.below(3) as u8 },
         17 => Op::RestartKey { off: rng.chance(1, 3) },
-        _ => Op::CorruptCiphertext,
+        18 => Op::CorruptCiphertext,
+        _ => {
+            *seq += 1;
+            Op::SendSibling { n: rng.range(1, 4) as u32, seq: *seq }
+        }
     }
 }
 
@@ -369,6 +373,7 @@ pub async fn run_history(ctx: &Ctx, prof: &Profile, hseed: u64, cache: CacheMode
     let dir = scratch_root().join(format!("h{:016x}", hseed));
     let mut w = World::new(hseed, cfg, cache, tcfg, dir);
     w.deep = prof.owner == "C16";
+    w.sibling = prof.owner == "C16" || (prof.owner == "C15" && rng.chance(2, 3));
     if w.cfg.encryption {
         w.stream_name = format!("vstream-{:08x}", hseed & 0xffff_ffff);
         w.topic_name = format!("vtopic-{:08x}", hseed & 0xffff_ffff);
@@ -411,10 +416,11 @@ pub async fn run_history(ctx: &Ctx, prof: &Profile, hseed: u64, cache: CacheMode
 }
 
 /// Re-executes an explicit operation list (witness replay / stall confirmation).
-pub async fn replay_ops(hist: u64, cfg: StorageCfg, cache: CacheMode, tcfg: TopicCfg, ops: Vec<Op>, deep: bool) -> (World, Outcome) {
+pub async fn replay_ops(hist: u64, cfg: StorageCfg, cache: CacheMode, tcfg: TopicCfg, ops: Vec<Op>, deep: bool, sibling: bool) -> (World, Outcome) {
     let dir = scratch_root().join(format!("r{:016x}", hist));
     let mut w = World::new(hist, cfg, cache, tcfg, dir);
     w.deep = deep;
+    w.sibling = sibling;
     let res: R<()> = async {
         w.boot().await?;
         for op in ops {
@@ -493,7 +499,7 @@ pub async fn run(ctx: &Ctx, rep: &mut ShardReport) {
             Outcome::Stopped(Stop::Stall(what)) => {
                 // re-execute once from the explicit list; a second stall at the same op is a violation
                 let idx = w.ops.len();
-                let (w2, out2) = replay_ops(w.hist, w.cfg.clone(), cache, w.tcfg.clone(), w.ops.clone(), w.deep).await;
+                let (w2, out2) = replay_ops(w.hist, w.cfg.clone(), cache, w.tcfg.clone(), w.ops.clone(), w.deep, w.sibling).await;
                 match out2 {
                     Outcome::Stopped(Stop::Stall(what2)) if w2.ops.len() == idx => {
                         let v = Violation {
@@ -561,7 +567,8 @@ async fn replay_file(_ctx: &Ctx, prof: &Profile, path: &str, rep: &mut ShardRepo
     };
     let hist = wv["history"].as_u64().unwrap_or(1);
     rep.process_cfg = cache.name().into();
-    let (w, out) = replay_ops(hist, cfg, cache, tcfg, ops, prof.owner == "C16").await;
+    let sibling = wv["sibling"].as_bool().unwrap_or(false);
+    let (w, out) = replay_ops(hist, cfg, cache, tcfg, ops, prof.owner == "C16", sibling).await;
     merge(rep, &w);
     rep.histories = 1;
     match out {
